@@ -49,6 +49,13 @@ def _situation(src, n, procs, lean):
     core.finalize_rules()
     adapter.plant_fsm_state(core, F.OPERATION)
     core.state_modes.master_identifier = core.local_identifier
+    # the first process may carry the state forced by an earlier start that was given up (nothing received since)
+    if src.pick_flag('earlier_start_given_up'):
+        from supervisor.states import ProcessStates as PS
+        from rig.stubs import CLOCK
+        proc0 = plist[0][0]
+        if proc0.info_map:
+            core.listener.force_process_state(proc0, '', CLOCK[0].t, PS.FATAL, 'No resource available')
     core.rpc_handler.out.clear()
     return core, app, plist
 
